@@ -283,6 +283,56 @@ class _DetNames:
         return f"sim{self.n:05d}"
 
 
+class _RFile:
+    """Proxy for a file opened for reading on which a read fault is planned: the open succeeds, read() fails
+    (a bad sector), optionally after delivering a prefix (short read)."""
+
+    def __init__(self, sim, real, rel, fault):
+        self._sim, self._f, self._rel, self._fault = sim, real, rel, fault
+        self._served = False
+
+    def _fail(self):
+        self._sim._ev("read", self._rel, "", "FAULT:" + self._fault["errno"])
+        raise self._sim._oserr(self._fault, self._f.name)
+
+    def read(self, n=-1):
+        how = self._fault.get("how", "at-start")
+        # read() / read(-1) loops until EOF inside Python: an error in the middle surfaces as an exception of that one
+        # call, never as a silently short result; only a sized read(n) can deliver a prefix before the failing call
+        if how == "after-prefix" and not self._served and n is not None and n >= 0:
+            self._served = True
+            data = self._f.read()
+            k = len(data) // 2
+            if n is not None and n >= 0:
+                k = min(k, n)
+            if k > 0:
+                self._sim._ev("read", self._rel, k, "short")
+                return data[:k]
+        self._fail()
+
+    def readline(self, *a):
+        self._fail()
+
+    def readinto(self, b):
+        self._fail()
+
+    def __iter__(self):
+        self._fail()
+
+    def close(self):
+        self._f.close()
+
+    def __enter__(self):
+        return self
+
+    def __exit__(self, *a):
+        self.close()
+        return False
+
+    def __getattr__(self, name):
+        return getattr(self._f, name)
+
+
 class Sim:
     """Interposer set for one call."""
 
@@ -330,10 +380,20 @@ class Sim:
         n = self.counts.get(seam, 0) + 1
         self.counts[seam] = n
         for f in self.faults:
-            hit = (f.get("match") in rel) if (f.get("match") and rel is not None) else (f.get("nth") == n and not f.get("match"))
-            if f["seam"] == seam and hit and not f.get("_fired"):
+            if f["seam"] != seam:
+                continue
+            if f.get("path"):
+                hit = rel is not None and rel == f["path"]
+            elif f.get("match"):
+                hit = rel is not None and f["match"] in rel
+            elif f.get("persist"):
+                hit = n >= f.get("nth", 1)          # a persistent condition (disk stays full), not a transient one
+            else:
+                hit = f.get("nth") == n
+            if hit and (f.get("persist") or not f.get("_fired")):
+                if not f.get("_fired"):
+                    self.fired.append({k: v for k, v in f.items() if k != "_fired"})
                 f["_fired"] = True
-                self.fired.append({k: v for k, v in f.items() if k != "_fired"})
                 return f
         return None
 
@@ -356,7 +416,7 @@ class Sim:
 
     def scandir(self, path="."):
         reld = self.rel(path)
-        fault = self._fault("scandir")
+        fault = self._fault("scandir", reld)
         if fault is not None:
             self._ev("scandir", reld, "", "FAULT:" + fault["errno"])
             raise self._oserr(fault, path)
@@ -402,6 +462,9 @@ class Sim:
             self._ev("open", rel, mode, "ERR:" + _errno.errorcode.get(e.errno, str(e.errno)))
             raise
         self._ev("open", rel, mode, "ok")
+        rfault = self._fault("read", rel)
+        if rfault is not None:
+            return _RFile(self, f, rel, rfault)
         return f
 
     def mkdir(self, path, mode=0o777, *a, **kw):
